@@ -283,6 +283,48 @@ def make_family(family: str, inner: typing.Any):
     return h
 
 
+SEQ_MEMBERS = ["bool", "u3", "u7", "u8", "u12", "u16", ["struct", ["u8"]], ["struct", ["u3"]], ["varr", "u3", 2],
+               ["delim", ["struct", ["u8"]], 16], ["farr", "u5", 2]]
+UNION_MEMBERS = ["u8", "u16", "u3", ["varr", "u16", 1], ["varr", "u8", 2], ["varr", "u8", 1], ["varr", "u32", 1],
+                 ["varr", "u16", 2], ["struct", ["u8"]], ["farr", "u8", 2], ["varr", "u4", 4], ["struct", ["u8", "u8"]]]
+
+
+def make_seq(kind: str, first: int):
+    """
+    Every sequence of members drawn from a list (choice variables; the first one is fixed by the scaffold): structures
+    of 3..4 members, unions of 2..3 variants.  Exact set, residues, min/max, alignment, extent vs O-LAYOUT.
+    """
+    members = SEQ_MEMBERS if kind == "struct" else UNION_MEMBERS
+    n = len(members)
+    exact = make_shape_exact
+
+    def concrete(idx: typing.List[int]) -> typing.Any:
+        spec = [kind, [members[i] for i in idx]]
+        return exact(spec, ["unused"], 1)(1)
+
+    def h(k: int, i1: int, i2: int, i3: int) -> typing.Any:
+        lo = 2 if kind == "struct" else 1
+        kk = pick(k, lo, 3)
+        if kk is None:
+            return None
+        idx = [first]
+        for v in (i1, i2, i3)[:kk]:
+            c = pick(v, 0, n - 1)
+            if c is None:
+                return None
+            idx.append(c)
+        for v in (i1, i2, i3)[kk:]:
+            if v != 0:
+                return None
+        if kind == "union" and len(idx) > 3:
+            return None
+        from .. import textio
+
+        return textio.native(concrete, idx)
+
+    return h
+
+
 def make_delimited(inner: typing.Any, other: typing.Any, r: int):
     """DelimitedType(inner, extent) for every extent = 64*q + r."""
     import pydsdl
@@ -392,7 +434,31 @@ ELEMS = ["u8", "bool", "u3", "i13", "u16", "f64", ["struct", ["u8", "u16"]], ["s
          ["delim", ["struct", ["u8"]], 32], ["varr", "u8", 2], ["union", ["u8", "u16"]]]
 
 
+def _seq_conditions(tier: str, seed: int) -> typing.List[Cond]:
+    import random
+
+    rnd = random.Random(seed + 77)
+    out = []  # type: typing.List[Cond]
+    firsts_s = range(len(SEQ_MEMBERS))
+    _ = rnd
+    for f in firsts_s:
+        out.append(Cond(PROP, "c02.seq-struct", make_seq, {"kind": "struct", "first": f},
+                        {"k": int, "i1": int, "i2": int, "i3": int}, kind="choice",
+                        assumptions=["structures of 3..4 members, the first fixed, the others any of %d member types" % len(SEQ_MEMBERS)],
+                        witness={"k": 3, "i1": 3, "i2": 6, "i3": 0}, budget=1800.0, need_exhaust=True))
+    for f in range(len(UNION_MEMBERS)):
+        out.append(Cond(PROP, "c02.seq-union", make_seq, {"kind": "union", "first": f},
+                        {"k": int, "i1": int, "i2": int, "i3": int}, kind="choice",
+                        assumptions=["unions of 2..3 variants, the first fixed, the others any of %d variant types" % len(UNION_MEMBERS)],
+                        witness={"k": 1, "i1": 4, "i2": 0, "i3": 0}, budget=900.0, need_exhaust=True))
+    return out
+
+
 def conditions(tier: str, seed: int) -> typing.List[Cond]:
+    return _conditions(tier, seed) + _seq_conditions(tier, seed)
+
+
+def _conditions(tier: str, seed: int) -> typing.List[Cond]:
     thorough = tier == "thorough"
     out = []  # type: typing.List[Cond]
     for e in ELEMS if thorough else ELEMS[:7] + ELEMS[8:9]:
